@@ -12,7 +12,7 @@ Cfg1 == [ K |-> 1,
           arrays |-> 4, maxIngest |-> 2, hotCap |-> 20, coldCap |-> 20, hotRate |-> 5, coldRate |-> 2,
           order |-> <<"a", "b">>, obs |-> ("a" :> WfA @@ "b" :> WfB),
           alg |-> "batch", parts |-> 1, minPer |-> 1, split |-> EmptyFn,
-          extra |-> (<<"a", 2>> :> 1), plan |-> EmptyFn, advRounds |-> 0, perm |-> {}, canon |-> TRUE, seg |-> FALSE, api |-> FALSE ]
+          extra |-> (<<"a", 2>> :> 1), plan |-> EmptyFn, advRounds |-> 0, advProv |-> 0, perm |-> {}, canon |-> TRUE, seg |-> FALSE, api |-> FALSE ]
 MCConfigs == {Cfg1}
 NotDone == run = "running"
 TimeBound == S.now <= 40
